@@ -29,6 +29,7 @@ LENSES = {
     "C07": "c07",
     "C12": "c12",
     "C13": "c13",
+    "C14": "c14",
     "C17": "c17",
 }
 
